@@ -560,20 +560,23 @@ GOAL_INSTANCES = [
     dict(init="{1, 2, 3, 4}", joiners="{}", leavers="{2, 3}"),  # leaves of adjacent nodes
     dict(init="{1, 2, 3, 4}", joiners="{}", leavers="{3, 4}"),  # adjacent leaves including the wrap-around node
     dict(init="{1, 2, 3}", joiners="{4}", leavers="{3}"),       # the highest member leaves while a node with an even higher id joins behind it
+    dict(init="{2}", joiners="{1}", leavers="{2}"),             # a one-node ring: its only member leaves while the first joiner is being admitted
 ]
 GOAL_AT = {"join-refused-busy": 0, "join-refused-pred-unsettled": 0, "join-granted-with-keys": 1, "leave1-succfirst-granted": 1,
            "leave1-succfirst-refused-busy": 3, "leave1-succfirst-refused-not-predecessor": 3, "leave1-selffirst-granted": 0,
            "leave1-selffirst-refused-busy": 2, "leave2-succfirst-granted": 1, "leave2-succfirst-refused-self-busy": 1,
            "leave2-selffirst-granted": 0, "leave2-selffirst-refused-succ-busy": 2, "leave2-selffirst-refused-not-predecessor": 0,
            "leave-transfer-with-keys": 0, "checkpred-cleared": 0, "leave-no-neighbour": 2,
-           "leave1-succfirst-refused-not-predecessor-with-keys-stale-read": 4, "leave2-selffirst-refused-not-predecessor-with-keys-stale-read": 0}     # measured: first instance that reaches the goal
+           "leave1-succfirst-refused-not-predecessor-with-keys-stale-read": 4, "leave2-selffirst-refused-not-predecessor-with-keys-stale-read": 0,
+           "leave-own-successor-with-predecessor-with-keys": 5}     # measured: first instance that reaches the goal
 GOALS = ["join-refused-busy", "join-refused-pred-unsettled", "join-refused-wrong-successor", "join-granted-with-keys",
          "leave1-succfirst-granted", "leave1-succfirst-refused-busy", "leave1-succfirst-refused-not-predecessor",
          "leave1-selffirst-granted", "leave1-selffirst-refused-busy",
          "leave2-succfirst-granted", "leave2-succfirst-refused-self-busy",
          "leave2-selffirst-granted", "leave2-selffirst-refused-succ-busy", "leave2-selffirst-refused-not-predecessor",
          "leave-transfer-with-keys", "checkpred-cleared", "leave-no-neighbour",
-         "leave1-succfirst-refused-not-predecessor-with-keys-stale-read", "leave2-selffirst-refused-not-predecessor-with-keys-stale-read"]
+         "leave1-succfirst-refused-not-predecessor-with-keys-stale-read", "leave2-selffirst-refused-not-predecessor-with-keys-stale-read",
+         "leave-own-successor-with-predecessor-with-keys"]
 
 
 def mc_cfg(fixpred, fixleave, fixwrap=False, lay="Lay4", init="{1, 2, 4}", joiners="{3}", leavers="{2}", maxops=2, invs=ALL_INVS,
